@@ -95,6 +95,15 @@ impl Stamp {
     #[verifier::external_body]
     pub fn clone(&self) -> (r: Stamp) ensures r@ == self@ { unimplemented!() }
 }
+/// R-std: PathBuf == PathBuf compares the paths (same characters)
+impl PartialEqSpecImpl for PathBuf {
+    open spec fn obeys_eq_spec() -> bool { true }
+    open spec fn eq_spec(&self, other: &PathBuf) -> bool { self@ == other@ }
+}
+impl PartialEq for PathBuf {
+    #[verifier::external_body]
+    fn eq(&self, o: &PathBuf) -> (r: bool) { unimplemented!() }
+}
 impl PartialEqSpecImpl for Stamp {
     open spec fn obeys_eq_spec() -> bool { true }
     open spec fn eq_spec(&self, other: &Stamp) -> bool { self@ == other@ }
